@@ -1368,6 +1368,10 @@ pub fn locate(tag: &str, d: &[u8], rng: &mut Rng) -> Vec<Field> {
                 f(&mut out, "SVG.doc0.endGlyph", o + 4, 2, n);
                 f(&mut out, "SVG.doc0.offset", o + 6, 4, n);
                 f(&mut out, "SVG.doc0.length", o + 10, 4, n);
+                // lengths that cut a gzip-compressed document inside its 3-byte magic, at the end
+                // of its 10-byte header, and before its 8-byte trailer
+                let l = *rng.pick(&[3u32, 3, 4, 9, 10, 17, 18]);
+                fw(&mut out, "SVG.doc0.lengthInsideGzipFraming", o + 10, l.to_be_bytes().to_vec(), n);
             }
         }
         "CBLC" | "EBLC" => {
